@@ -128,18 +128,27 @@ func mFragmentX(seq, base int64, samples []mSample, payload []byte, extras strin
 			kids = append(kids, extraZzzz)
 		}
 		mk := [][]byte{mMfhd(seq)}
-		if extras != "none" {
+		if extras != "none" && extras != "seg-sidx" {
 			mk = append(mk, extraVndr)
 		}
 		mk = append(mk, mkBox("traf", kids...))
-		if extras != "none" {
+		if extras != "none" && extras != "seg-sidx" {
 			mk = append(mk, extraUUIDMoof)
 		}
 		return mkBox("moof", mk...)
 	}
 	moof := build(0)
 	moof = build(int64(len(moof) + 8))
-	return cat(moof, mMdat(payload, false))
+	frag := cat(moof, mMdat(payload, false))
+	if extras == "seg-sidx" {
+		// a media segment with its own index: styp sidx moof mdat (the sidx is not protection signalling)
+		var dur int64
+		for _, sm := range samples {
+			dur += sm.Dur
+		}
+		return cat(mStyp("msdh", 0, "msdh", "msix"), mSidx(1, 90000, base, 0, []sidxRefM{{int64(len(frag)), dur}}), frag)
+	}
+	return frag
 }
 
 // ---- independent observation of the encrypted fragment
@@ -586,6 +595,7 @@ type cencJob struct {
 	ivLen         int
 	iv            []byte
 	extras        string
+	optimize      bool   // encode the encrypted file with trun optimisation
 	corpus        bool
 	raw           [][]byte // corpus: clear sample bytes
 	initBytes     []byte
@@ -668,7 +678,8 @@ func cencDrive(args []string) error {
 				iv = append(append([]byte{}, iv[8:]...), make([]byte, 8)...)
 			}
 			job.iv = iv
-			job.extras = []string{"none", "nouuid-in-traf", "all"}[ci%3]
+			job.extras = []string{"none", "nouuid-in-traf", "all", "none", "seg-sidx", "all", "nouuid-in-traf"}[ci%7]
+			job.optimize = ci%5 == 2
 			job.perFrag = ci%2 == 1
 			cencRun(rep, tw7, tw6, &job, key, fmt.Sprintf("case%d", ci))
 			if c07EncBin != "" && ci%3 == int(seedFromEnv())%3 {
@@ -841,6 +852,23 @@ func runTool(bin string, in []byte, args ...string) ([]byte, error) {
 	return ioutil.ReadFile(op)
 }
 
+// beyondSaiz: a sample with 40 or more protected NAL units needs more than 255 bytes of auxiliary information with a 16-byte
+// IV (16 + 2 + 6n), 43 or more with a constant IV: saiz cannot describe it, refusing to encrypt is the right answer
+func (j *cencJob) beyondSaiz() bool {
+	for _, smp := range j.samples {
+		n := 0
+		for _, nal := range smp {
+			if nal.Kind == "v" && nal.Len+4 >= 112 {
+				n++
+			}
+		}
+		if (j.scheme == "cenc" && 16+2+6*n > 255) || 2+6*n > 255 {
+			return true
+		}
+	}
+	return false
+}
+
 func nalsOfSample(s []byte) []cencNal {
 	var out []cencNal
 	pos := 0
@@ -947,6 +975,10 @@ func cencRun(rep *Report, tw7, tw6 *TraceWriter, job *cencJob, key []byte, name 
 		// the shipped command line tool, built from the working tree
 		out, err := runTool(c07EncBin, clearFile, "-kid", hex.EncodeToString(kid), "-key", hex.EncodeToString(key), "-iv", hex.EncodeToString(ivArg), "-scheme", job.scheme)
 		if err != nil {
+			if job.beyondSaiz() {
+				rep.Count(name+"/refused", true, J{"refused": err.Error()})
+				return
+			}
 			rep.Violation("encrypt/tool-error", "mp4ff-encrypt fails: "+err.Error(), cs)
 			return
 		}
@@ -966,11 +998,27 @@ func cencRun(rep *Report, tw7, tw6 *TraceWriter, job *cencJob, key []byte, name 
 		for _, seg := range f.Segments {
 			for _, fr := range seg.Fragments {
 				if err := mp4.EncryptFragment(fr, key, ivArg, ipd); err != nil {
+					if job.beyondSaiz() {
+						rep.Count(name+"/refused", true, J{"refused": err.Error()}) // 23001-7: the aux info of such a sample does not fit sample_info_size (8 bits)
+						return
+					}
 					rep.Violation("encrypt/error", "EncryptFragment fails: "+err.Error(), cs)
 					return
 				}
 				nfr++
 			}
+		}
+		// a share of the jobs is written with trun / tfhd optimisation: the encoder then shrinks boxes that precede senc
+		// AFTER EncryptFragment has computed the saio offset
+		if job.optimize {
+			f.EncOptimize = mp4.OptimizeTrun
+			for _, seg := range f.Segments {
+				seg.EncOptimize = mp4.OptimizeTrun
+				for _, fr := range seg.Fragments {
+					fr.EncOptimize = mp4.OptimizeTrun
+				}
+			}
+			cs["optimize_trun"] = true
 		}
 		var eb bytes.Buffer
 		if err := f.Encode(&eb); err != nil {
@@ -1184,6 +1232,24 @@ func cencRun(rep *Report, tw7, tw6 *TraceWriter, job *cencJob, key []byte, name 
 					rt["kids"] = J{"moof": o2.MoofKids, "traf": o2.TrafKids, "want_moof": o1.MoofKids, "want_traf": o1.TrafKids}
 				}
 			}
+		}
+		// top-level boxes: the decrypted file has the box sequence of the clear file (styp, sidx ... are not protection signalling)
+		seq := func(b []byte) string {
+			top, _ := walkBoxes(b, 0)
+			t, media := "", false
+			for _, x := range top {
+				if x.Type == "styp" || x.Type == "sidx" || x.Type == "moof" {
+					media = true // the media part; what happens to boxes around the init segment is the file encoder's business (C02)
+				}
+				if media {
+					t += x.Type + " "
+				}
+			}
+			return t
+		}
+		if a, b := seq(dec), seq(clearFile); a != b {
+			kept = false
+			rt["top_level"] = J{"decrypted": a, "clear": b}
 		}
 		rt["boxes_kept"] = kept
 	}()
